@@ -49,6 +49,7 @@ public:
         return disable_interrupt;
     }
     void SetDisableInterrupt(u16 v) {
+        std::lock_guard lock(mutex);
         disable_interrupt = v;
     }
 
